@@ -138,6 +138,7 @@ func checkC13(c *Check) {
 	c.rendezvousChannels("C13.3 damping-decided-before-next-transition", "errorCh")
 	c.registryLocked("C13.4 registry-locked")
 	c.backoffArithmetic("C13.3 hold-down-length")
+	c.dampPeerRule("C13.3 damp-predicate")
 	c.inboundLookup("C13.1 lookup-and-destination", "C13.4 registry-locked")
 	c.registryKeys("C13.1 registry-keys")
 	// incomingConnection: close when the peer is stopping, else hand over
